@@ -19,7 +19,7 @@ def machines(tier):
     refs2 = dict(names=('x', 'y'), max_handles=3, max_ext=2, ops=('and',),
                  with_ite=False, with_foa=False, with_reorder=False)
     ops2 = dict(names=('x', 'y'), max_handles=2, max_ext=2, ops=('and', 'xor'),
-                with_ite=False, with_foa=False)
+                with_ite=False, with_foa=False, with_twin=True)
     xor3 = dict(names=('x', 'y', 'z'), max_handles=2, max_ext=1, ops=('xor',),
                 with_ite=False, with_foa=False, seeds=('fresh', 'used'))
     # reorderings to explicit orders / pairs share one level table across swaps and do NOT
